@@ -645,4 +645,214 @@ theorem preceding_wf (decls : List Comp) (p : List Tr) (out : List CId) (hwf : w
     simp only [defsOf, List.flatMap_append, List.mem_append] at this ⊢
     exact Or.inl this
 
+/-! ### extract_atomic as a whole: the final Select is exactly the requested output -/
+
+/-- the Select of the atomic part is the requested output followed by columns that are not in it -/
+theorem select_fold_shape (sel out : List CId) :
+    ∃ ext, sel.foldl (fun out c => if out.contains c then out else out ++ [c]) out = out ++ ext ∧
+      ∀ c ∈ ext, c ∉ out := by
+  induction sel generalizing out with
+  | nil => exact ⟨[], by simp⟩
+  | cons x xs ih =>
+    simp only [List.foldl_cons]
+    by_cases hx : out.contains x = true
+    · simp only [hx, if_true]; exact ih out
+    · simp only [hx, Bool.false_eq_true, if_false]
+      obtain ⟨ext, h1, h2⟩ := ih (out ++ [x])
+      refine ⟨x :: ext, by rw [h1]; simp, ?_⟩
+      intro c hc
+      rcases List.mem_cons.1 hc with rfl | hc
+      · simpa using hx
+      · intro hco; exact h2 c hc (List.mem_append_left _ hco)
+
+theorem splitOffBack_select_shape (decls : List Comp) (p : List Tr) (out : List CId) :
+    ∃ ext, (splitOffBack decls p out).select = out ++ ext ∧ ∀ c ∈ ext, c ∉ out :=
+  select_fold_shape _ out
+
+theorem no_extra_means_equal (out ext : List CId) (hext : ∀ c ∈ ext, c ∉ out)
+    (h : (out ++ ext).any (fun c => !out.contains c) = false) : ext = [] := by
+  cases ext with
+  | nil => rfl
+  | cons x xs =>
+    exfalso
+    have hx := hext x (by simp)
+    have : (out ++ x :: xs).any (fun c => !out.contains c) = true := by
+      simp only [List.any_eq_true, Bool.not_eq_true', List.mem_append, List.mem_cons]
+      exact ⟨x, Or.inr (Or.inl rfl), by simpa using hx⟩
+    rw [this] at h; cases h
+
+theorem selectOf_cons_select (cs : List CId) (rest : List Tr) : selectOf (.select cs :: rest) = some cs := by
+  simp [selectOf]
+
+theorem selectOf_from_cons (cs : List CId) (rest : List Tr) : selectOf (.from cs :: rest) = selectOf rest := by
+  simp [selectOf]
+
+
+theorem anchorSplit_snd (next : CId) (cols : List CId) (atomic : List Tr) :
+    (anchorSplit next cols atomic).2 =
+      .from (anchorSplit next cols atomic).1 ::
+        atomic.map (Tr.map (redirect (cols.zip (anchorSplit next cols atomic).1))) := rfl
+
+theorem anchorSplit_fst_length (next : CId) (cols : List CId) (atomic : List Tr) :
+    (anchorSplit next cols atomic).1.length = cols.length := by simp [anchorSplit]
+
+/-- second half of `extract_atomic`: whatever the first half produced, the returned pipeline selects exactly the
+(redirected) requested columns - same number, same order, repetitions kept -, provided that a Select without extra
+columns is the requested list itself -/
+theorem stage2_selects_output (s : Stage1) (sel : List CId) (hsel : selectOf s.atomic = some sel)
+    (hexact : sel.any (fun c => !s.out1.contains c) = false → sel = s.out1) :
+    selectOf (stage2 s).atomic = some (stage2 s).output ∧ (stage2 s).output.length = s.out1.length := by
+  unfold stage2
+  simp only [hsel, Option.getD_some]
+  by_cases hany : sel.any (fun c => !s.out1.contains c) = true
+  · simp only [hany, if_true]
+    refine ⟨?_, by simp⟩
+    rw [anchorSplit_snd, selectOf_from_cons]
+    simp [selectOf, Tr.map]
+  · have hf : sel.any (fun c => !s.out1.contains c) = false := by simpa using hany
+    simp only [hf, Bool.false_eq_true, if_false]
+    refine ⟨?_, ?_⟩
+    · rw [hsel, hexact hf]
+    · trivial
+
+/-- **extract_atomic selects exactly the requested columns.** `hinj`: the redirect of the split does not map a column
+outside the requested output onto the image of a requested one (it is injective on the ids in play: the new ids are
+fresh and pairwise distinct - `IdGenerator`). -/
+theorem extract_selects_output (decls : List Comp) (next : CId) (p : List Tr) (out : List CId)
+    (hinj : ∀ a ∈ (splitOffBack decls p out).select,
+      redirect ((splitOffBack decls p out).missing.zip
+        (anchorSplit next (splitOffBack decls p out).missing (splitOffBack decls p out).atomic).1) a ∈
+      out.map (redirect ((splitOffBack decls p out).missing.zip
+        (anchorSplit next (splitOffBack decls p out).missing (splitOffBack decls p out).atomic).1)) → a ∈ out) :
+    selectOf (extractAtomic decls next p out).atomic = some (extractAtomic decls next p out).output ∧
+    (extractAtomic decls next p out).output.length = out.length := by
+  obtain ⟨ext, hshape, hext⟩ := splitOffBack_select_shape decls p out
+  unfold extractAtomic
+  by_cases hrest : (splitOffBack decls p out).rest.isEmpty = true
+  · -- nothing stays in front
+    have hs1 : stage1 decls next p out =
+        { atomic := (splitOffBack decls p out).atomic, stashed := [], out1 := out, next1 := next } := by
+      simp [stage1, hrest]
+    rw [hs1]
+    have := stage2_selects_output
+      { atomic := (splitOffBack decls p out).atomic, stashed := [], out1 := out, next1 := next }
+      (splitOffBack decls p out).select (selectOf_cons_select _ _)
+      (by
+        intro h
+        simp only at h
+        rw [hshape] at h ⊢
+        rw [no_extra_means_equal out ext hext h]; simp)
+    simpa using this
+  · -- a split: everything goes through the redirect
+    have hrest' : (splitOffBack decls p out).rest.isEmpty = false := by simpa using hrest
+    have hs1 : stage1 decls next p out =
+        { atomic := (anchorSplit next (splitOffBack decls p out).missing (splitOffBack decls p out).atomic).2,
+          stashed := [(splitOffBack decls p out).rest ++ [.select (splitOffBack decls p out).missing]],
+          out1 := out.map (redirect ((splitOffBack decls p out).missing.zip
+            (anchorSplit next (splitOffBack decls p out).missing (splitOffBack decls p out).atomic).1)),
+          next1 := next + (splitOffBack decls p out).missing.length } := by
+      simp [stage1, hrest']
+    rw [hs1]
+    have hselOf : selectOf (anchorSplit next (splitOffBack decls p out).missing (splitOffBack decls p out).atomic).2 =
+        some ((splitOffBack decls p out).select.map (redirect ((splitOffBack decls p out).missing.zip
+          (anchorSplit next (splitOffBack decls p out).missing (splitOffBack decls p out).atomic).1))) := by
+      rw [anchorSplit_snd, selectOf_from_cons]
+      simp [SplitResult.atomic, selectOf, Tr.map]
+    have := stage2_selects_output
+      { atomic := (anchorSplit next (splitOffBack decls p out).missing (splitOffBack decls p out).atomic).2,
+        stashed := [(splitOffBack decls p out).rest ++ [.select (splitOffBack decls p out).missing]],
+        out1 := out.map (redirect ((splitOffBack decls p out).missing.zip
+          (anchorSplit next (splitOffBack decls p out).missing (splitOffBack decls p out).atomic).1)),
+        next1 := next + (splitOffBack decls p out).missing.length }
+      _ hselOf
+      (by
+        intro h
+        -- no image outside the image of `out`, hence (injectivity) no extra column
+        have hext0 : ext = [] := by
+          cases hx : ext with
+          | nil => rfl
+          | cons x xs =>
+            exfalso
+            have hxsel : x ∈ (splitOffBack decls p out).select := by rw [hshape, hx]; simp
+            have himg := List.any_eq_false.1 h _ (List.mem_map_of_mem hxsel)
+            have himg' : redirect ((splitOffBack decls p out).missing.zip
+                (anchorSplit next (splitOffBack decls p out).missing (splitOffBack decls p out).atomic).1) x ∈
+                out.map (redirect ((splitOffBack decls p out).missing.zip
+                (anchorSplit next (splitOffBack decls p out).missing (splitOffBack decls p out).atomic).1)) := by
+              simpa using himg
+            exact hext x (by rw [hx]; simp) (hinj x hxsel himg')
+        rw [hshape, hext0]; simp)
+    simpa using this
+
+
+theorem zip_snd_unique (l₁ l₂ : List CId) (h : l₂.Nodup) (a b v : CId)
+    (ha : (a, v) ∈ l₁.zip l₂) (hb : (b, v) ∈ l₁.zip l₂) : a = b := by
+  induction l₁ generalizing l₂ with
+  | nil => simp at ha
+  | cons x xs ih =>
+    cases l₂ with
+    | nil => simp at ha
+    | cons y ys =>
+      simp only [List.zip_cons_cons, List.mem_cons, Prod.mk.injEq] at ha hb
+      have hy := List.nodup_cons.1 h
+      rcases ha with ⟨rfl, rfl⟩ | ha
+      · rcases hb with ⟨rfl, _⟩ | hb
+        · rfl
+        · exact absurd (List.of_mem_zip hb).2 hy.1
+      · rcases hb with ⟨rfl, rfl⟩ | hb
+        · exact absurd (List.of_mem_zip ha).2 hy.1
+        · exact ih ys hy.2 ha hb
+
+theorem redirect_pair (cols new : List CId) (hlen : cols.length = new.length) (c : CId) (hc : c ∈ cols) :
+    (c, redirect (cols.zip new) c) ∈ cols.zip new := by
+  have hk : c ∈ ((cols.zip new).reverse).map Prod.fst := by
+    rw [List.map_reverse, List.mem_reverse, List.map_fst_zip (by omega)]
+    exact hc
+  obtain ⟨v, h1, h2⟩ := lookup_of_mem_keys _ c hk
+  simp only [redirect, h1, Option.getD_some]
+  exact List.mem_reverse.1 h2
+
+theorem fresh_nodup (next n : Nat) : ((List.range n).map (· + next)).Nodup := by
+  rw [List.nodup_iff_pairwise_ne, List.pairwise_map]
+  exact (List.nodup_iff_pairwise_ne.1 (List.nodup_range (n := n))).imp (fun h => by omega)
+
+theorem fresh_ge (next n : Nat) : ∀ v ∈ (List.range n).map (· + next), next ≤ v := by
+  intro v hv
+  obtain ⟨i, _, rfl⟩ := List.mem_map.1 hv
+  omega
+
+/-- the redirect of a split is injective on the ids that existed before it, when the new ids are fresh -/
+theorem redirect_fresh_image (next : CId) (cols out : List CId) (a : CId)
+    (ha : a < next) (hout : ∀ b ∈ out, b < next)
+    (h : redirect (cols.zip ((List.range cols.length).map (· + next))) a ∈
+         out.map (redirect (cols.zip ((List.range cols.length).map (· + next))))) : a ∈ out := by
+  obtain ⟨b, hb, hab⟩ := List.mem_map.1 h
+  have hlen : cols.length = ((List.range cols.length).map (· + next)).length := by simp
+  by_cases hac : a ∈ cols <;> by_cases hbc : b ∈ cols
+  · have pa := redirect_pair cols _ hlen a hac
+    have pb := redirect_pair cols _ hlen b hbc
+    rw [hab] at pb
+    have : b = a := zip_snd_unique cols _ (fresh_nodup next cols.length) b a _ pb pa
+    exact this ▸ hb
+  · have h1 := fresh_ge next cols.length _ (redirect_mem cols _ hlen a hac)
+    rw [redirect_id cols _ b hbc] at hab
+    rw [← hab] at h1
+    exact absurd (hout b hb) (Nat.not_lt.2 h1)
+  · have h1 := fresh_ge next cols.length _ (redirect_mem cols _ hlen b hbc)
+    rw [redirect_id cols _ a hac] at hab
+    rw [hab] at h1
+    exact absurd ha (Nat.not_lt.2 h1)
+  · rw [redirect_id cols _ a hac, redirect_id cols _ b hbc] at hab
+    exact hab ▸ hb
+
+/-- **extract_atomic selects exactly the requested columns**, with the side condition discharged: every id in play is below
+the next id of the generator -/
+theorem extract_selects_output_fresh (decls : List Comp) (next : CId) (p : List Tr) (out : List CId)
+    (hout : ∀ b ∈ out, b < next) (hsel : ∀ a ∈ (splitOffBack decls p out).select, a < next) :
+    selectOf (extractAtomic decls next p out).atomic = some (extractAtomic decls next p out).output ∧
+    (extractAtomic decls next p out).output.length = out.length := by
+  apply extract_selects_output
+  intro a ha himg
+  exact redirect_fresh_image next _ out a (hsel a ha) hout (by simpa [anchorSplit] using himg)
+
 end Lemmas.Anchor
